@@ -77,6 +77,7 @@ func genC12(x *Ctx) *c12Scen {
 		if tp.G(3) != 0 {
 			sc.Members = append(sc.Members, i)
 		}
+		sp.Repath = tp.Chance(150)
 		sc.Svcs = append(sc.Svcs, sp)
 	})
 	nSvc := len(sc.Svcs)
